@@ -20,6 +20,7 @@ import (
 	ebu "github.com/jilio/ebu"
 
 	"verif/harness/internal/jgen"
+	"verif/harness/internal/stores"
 	"verif/harness/internal/vk"
 )
 
@@ -145,15 +146,25 @@ type world struct {
 	errs         []errCall
 	names        []string
 	optLabels    []string
+	handlerMode  int
+	paged        bool
+	gen, stale   int
 	duringReplay func(i int) // called by the replay callback after event i (registry changes from inside the callback)
 }
 
 // newWorld builds the bus; viaOptions registers these raw edges through the WithUpcast option.
 func newWorld(viaOptions [][2]string) *world {
 	w := &world{store: ebu.NewMemoryStore(), reg: &registry{ups: map[string][]*mup{}}, fp: &failPlan{}}
-	opts := []ebu.Option{ebu.WithStore(w.store), ebu.WithUpcastErrorHandler(func(t string, d json.RawMessage, err error) {
-		w.errs = append(w.errs, errCall{Type: t, Data: string(d)})
-	})}
+	worlds++
+	w.handlerMode = worlds % 3 // the error handler is given: 0 by option before the upcasters, 1 by option after them, 2 by the setter before every replay (replacing the one before)
+	opts := []ebu.Option{ebu.WithStore(w.store)}
+	if w.paged = worlds%2 == 0; w.paged {
+		// the bus sees the store through a decorator without the optional interfaces: replays page
+		opts = []ebu.Option{ebu.WithStore(&stores.Paged{Inner: w.store}), ebu.WithSubscriptionStore(ebu.NewMemoryStore())}
+	}
+	if w.handlerMode == 0 {
+		opts = append(opts, ebu.WithUpcastErrorHandler(w.handler()))
+	}
 	for i, e := range viaOptions {
 		if e[0] == e[1] || w.reaches(e[1], e[0]) {
 			continue
@@ -164,8 +175,26 @@ func newWorld(viaOptions [][2]string) *world {
 		w.reg.ups[e[0]] = append(w.reg.ups[e[0]], &mup{from: e[0], to: e[1], label: label, f: f})
 		w.optLabels = append(w.optLabels, label)
 	}
+	if w.handlerMode != 0 {
+		opts = append(opts, ebu.WithUpcastErrorHandler(w.handler()))
+	}
 	w.bus = ebu.New(opts...)
 	return w
+}
+
+var worlds int
+
+// handler returns a new generation of the world's error handler; calls that reach an older
+// generation after it was replaced are counted as stale.
+func (w *world) handler() ebu.UpcastErrorHandler {
+	w.gen++
+	g := w.gen
+	return func(t string, d json.RawMessage, err error) {
+		if g != w.gen {
+			w.stale++
+		}
+		w.errs = append(w.errs, errCall{Type: t, Data: string(d)})
+	}
 }
 
 func (w *world) reaches(from, to string) bool {
@@ -282,6 +311,9 @@ func (w *world) replayCheck(run *vk.Run, log []stored, witness map[string]any, p
 		materializerReplays.Add(1)
 	}
 	w.errs = nil
+	if w.handlerMode == 2 {
+		w.bus.SetUpcastErrorHandler(w.handler()) // installed (again) after the registrations made so far
+	}
 	var wantErrs []errCall
 	i := 0
 	err := w.bus.ReplayWithUpcast(context.Background(), ebu.OffsetOldest, func(e *ebu.StoredEvent) error {
@@ -313,6 +345,37 @@ func (w *world) replayCheck(run *vk.Run, log []stored, witness map[string]any, p
 	}
 	if i != len(log) {
 		viol("replay-incomplete", fmt.Sprintf("callback saw %d of %d events", i, len(log)))
+	}
+	if w.paged && len(log) > 1 {
+		// the same replay given up half-way (the callback cancels the context): whatever is still
+		// delivered afterwards - the rest of a page - is upcast like everything else
+		keep := w.errs
+		cctx, cancel := context.WithCancel(context.Background())
+		k, after := 0, 0
+		w.bus.ReplayWithUpcast(cctx, ebu.OffsetOldest, func(e *ebu.StoredEvent) error {
+			if k >= len(log) {
+				return nil
+			}
+			s := log[k]
+			k++
+			wd, wt, ec := w.reg.apply(s.data, s.typ)
+			if cctx.Err() != nil {
+				after++
+			}
+			if e.Type != wt || (ec == nil && len(w.reg.ups[s.typ]) > 0 && !jgen.JSONEqual(e.Data, wd)) {
+				viol("not-upcast-after-cancel", fmt.Sprintf("replay whose context the callback cancelled at event %d of %d: event %d stored as %q reached the callback as %q %s, the chain gives %q %s", len(log)/2+1, len(log), s.id, s.typ, e.Type, e.Data, wt, wd))
+			}
+			if k-1 == len(log)/2 {
+				cancel()
+			}
+			return nil
+		})
+		cancel()
+		w.errs = keep
+		run.Count("events_delivered_after_the_replay_context_was_cancelled", int64(after))
+	}
+	if w.stale != 0 {
+		viol("error-handler-calls", fmt.Sprintf("%d failures were reported to an upcast error handler that SetUpcastErrorHandler had replaced", w.stale))
 	}
 	if fmt.Sprint(w.errs) != fmt.Sprint(wantErrs) {
 		viol("error-handler-calls", fmt.Sprintf("upcast error handler calls %v, expected exactly %v (one per failing application, with the type and data of the failing step)", clipCalls(w.errs), clipCalls(wantErrs)))
